@@ -39,7 +39,8 @@ U == CASE UName = "small1" -> AtomsSmall \cup Containers(AtomsSmall, Hashable(At
                                            D(<<VPair(VStr("{u+ff58}"), I), VPair(VStr("a"), S)>>),
                                            \* a key that is NOT a string but hashes and compares like the string "a"
                                            D(<<VPair(VAtom("mtfx.shapes.StrLike"), I)>>)}
-                                  Two == {<<x, y>> : x \in Pool, y \in Pool}
+                                  \* (None is a member of the pool too: a dict NEXT TO None inside one container)
+                                  Two == {<<x, y>> : x \in Pool \cup {Nn}, y \in Pool \cup {Nn}}
                               IN  Pool \cup {I, Nn, S}
                                   \cup {VList(p) : p \in Two} \cup {VTuple(<<VList(p)>>) : p \in Two}
                                   \cup {VDict(<<VPair(VStr("k"), VList(p))>>) : p \in Two}
